@@ -1,6 +1,6 @@
 """Path rules on the CFG: must-pass-after / must-pass-before, member write detection."""
 from .facts import strip, txt, callee, call_args, call_object, walk
-from .flow import element_writes, STD_ACCESSORS, ASSIGN_OPS
+from .flow import element_writes, STD_ACCESSORS, ASSIGN_OPS, is_accessor
 
 
 def member_of(n):
@@ -36,9 +36,50 @@ def member_of(n):
     return None
 
 
+def pointer_aliases(fn):
+    """locals of non-const pointer/reference type initialised from an lvalue path into a member
+    (T *p = member.getStrip(i);  auto &v = member[k];) : did -> field"""
+    al = {}
+    for n in fn.walk():
+        if n.get("k") == "VarDecl" and n.get("c"):
+            t = n.get("t", "")
+            if not (t.endswith("*") or t.endswith("&") or n.get("ref")):
+                continue
+            if t.startswith("const ") or " const *" in t or "const " in t.split("<")[0]:
+                continue
+            f = member_of(n["c"][0])
+            if f:
+                al[n["did"]] = f
+    return al
+
+
+def _alias_root(n, al):
+    from .flow import base_var
+    v = base_var(n)
+    return al.get(v) if v is not None else None
+
+
 def member_writes(fn, into_lambda=True):
     """yield (node, field, kind) for every element that may modify a data member of *this
     kind: 'assign' | 'update' (compound, ++, non-const method, passed as mutable argument)"""
+    al = pointer_aliases(fn)
+    if al:
+        for n in fn.walk(into_lambda):
+            k = n.get("k")
+            c = n.get("c") or []
+            if k in ("BinaryOperator", "CompoundAssignOperator") and n.get("op") in ASSIGN_OPS:
+                l = strip(c[0])
+                if l is not None and l.get("k") != "DeclRefExpr":      # p[k] = .., *p = ..  (not re-seating p itself)
+                    f = _alias_root(l, al)
+                    if f:
+                        yield n, f, "update"
+            elif k in ("CallExpr", "CXXMemberCallExpr", "CXXOperatorCallExpr"):
+                args = call_args(n)
+                for i in n.get("mutargs", []):
+                    if i < len(args):
+                        f = _alias_root(strip(args[i]), al)
+                        if f:
+                            yield n, f, "update"
     for n in fn.walk(into_lambda):
         k = n.get("k")
         c = n.get("c") or []
@@ -62,8 +103,7 @@ def member_writes(fn, into_lambda=True):
                         yield n, f, "update"
             if k == "CXXMemberCallExpr":
                 h = strip(n["c"][0], casts=False)
-                if h is not None and not h.get("cm") and not h.get("static") and not (
-                        h.get("fn", "").startswith("std::") and h.get("fn", "").endswith(STD_ACCESSORS)):
+                if h is not None and not h.get("cm") and not h.get("static") and not is_accessor(h.get("fn", "")):
                     o = call_object(n)
                     f = member_of(o) if o is not None else None
                     if f:
